@@ -834,6 +834,11 @@ Fixpoint wf (e : ex) : bool :=
   | ESet es => forallb (fun x => wf x && is_expr x) es
   | ETup es => negb (Nat.eqb (List.length es) 1) && forallb (fun x => wf x && is_expr x) es
   | ERec bs => negb (Nat.eqb (List.length bs) 0) && forallb (fun b => wf (snd b) && is_expr (snd b)) bs
+  | EMap ms =>
+      (* `{a: 1, ...}` with a variable as first key is read as a record (or, mixed, is outside the model) *)
+      match ms with (EVar _ _, _) :: _ => false | _ => true end &&
+      forallb (fun m => wf (fst m) && is_expr (fst m) && wf (snd m) && is_expr (snd m)) ms
+  | ETupS _ e => wf e && is_expr e
   | ECall _ args => forallb (fun a => wf (snd a) && is_expr (snd a)) args
   | ESlice _ subs => negb (Nat.eqb (List.length subs) 0) && forallb (fun s => wf s && is_sub s) subs
   | EBrk ixs => negb (Nat.eqb (List.length ixs) 0) &&
@@ -846,12 +851,55 @@ Fixpoint wf (e : ex) : bool :=
 Definition wf_target (subs : list ex) : bool :=
   forallb (fun s => wf s && is_sub s) subs.
 
+Fixpoint wf_pat (p : pat) : bool :=
+  match p with
+  | PItem _ | PArr _ _ => true
+  | PTup ps | PTupS _ ps => negb (Nat.eqb (List.length ps) 0) && forallb wf_pat ps
+  end.
+
+(* the arms carry the branch glyph they are printed with: ├ for all but the last, └ for the last *)
+Fixpoint last_flags (l : list bool) : bool :=
+  match l with
+  | [] => false
+  | [b] => b
+  | b :: r => negb b && last_flags r
+  end.
+
+Definition wfe (e : ex) : bool := wf e && is_expr e.
+Definition is_kvar (e : ex) : bool := match e with EVar _ (Some _) => true | _ => false end.
+(* a filter qualifier is modelled when it is a comparison-like formula beginning with a variable: `x > 2`, `x ∈ s` *)
+Definition filt_ok (e : ex) : bool := match e with ETerm (EVar _ _) _ => true | _ => false end.
+
+Definition wf_qual (q : qual) : bool :=
+  match q with
+  | QGen p e => wf_pat p && wfe e
+  | QLet _ _ e => wfe e
+  | QFilt e => wfe e && filt_ok e
+  end.
+
+Definition wf_rhs (r : rhs) : bool :=
+  match r with
+  | RExp e => wf e && is_expr e
+  | RTable fs rows =>
+      negb (Nat.eqb (List.length fs) 0) && negb (Nat.eqb (List.length rows) 0) &&
+      forallb (fun row => negb (Nat.eqb (List.length row) 0) && forallb (fun c => wfe c && negb (is_kvar c)) row) rows
+  | RMatch src arms =>
+      wf src && is_fac src && last_flags (map (fun a => fst (fst (fst a))) arms) &&
+      forallb (fun a => let '(_, p, g, e) := a in
+                        wf_pat p && match g with Some g => wfe g | None => true end && wfe e) arms
+  | RCompr _ e qs => wfe e && negb (Nat.eqb (List.length qs) 0) && forallb wf_qual qs
+  end.
+
 Definition wf_stmt (s : stmt) : bool :=
   match s with
-  | SDefine _ _ _ e => wf e && is_expr e
-  | SAssign _ subs e => wf_target subs && wf e && is_expr e
-  | SOpAssign _ subs _ e => wf_target subs && wf e && is_expr e
-  | SExpr e => wf e && is_expr e
+  | SDefine _ _ _ e => wf_rhs e
+  | SAssign _ subs e => wf_target subs && wf_rhs e
+  | SOpAssign _ subs _ e => wf_target subs && wf_rhs e
+  | SExpr e => wf_rhs e
+  | SComment _ => true
+  | SEnum _ vs => negb (Nat.eqb (List.length vs) 0)
+  | SFun _ _ _ arms =>
+      last_flags (map (fun a => fst (fst a)) arms) && forallb (fun a => wf_pat (snd (fst a)) && wfe (snd a)) arms
   end.
 
 Definition wf_prog (p : prog) : bool := forallb wf_stmt p.
@@ -865,6 +913,8 @@ Fixpoint exists_ex (P : ex -> bool) (e : ex) : bool :=
   | EMat rows => existsb (fun row => existsb (exists_ex P) row) rows
   | ESet es | ETup es | EBrk es => existsb (exists_ex P) es
   | ERec bs => existsb (fun b => exists_ex P (snd b)) bs
+  | EMap ms => existsb (fun m => exists_ex P (fst m) || exists_ex P (snd m)) ms
+  | ETupS _ e => exists_ex P e
   | ECall _ args => existsb (fun a => exists_ex P (snd a)) args
   | ESlice _ subs => existsb (exists_ex P) subs
   | ERange a inc _ b =>
@@ -872,10 +922,24 @@ Fixpoint exists_ex (P : ex -> bool) (e : ex) : bool :=
   | _ => false
   end.
 
+Definition qual_expr (q : qual) : ex := match q with QGen _ e | QLet _ _ e | QFilt e => e end.
+Definition marm_exprs (a : bool * pat * option ex * ex) : list ex :=
+  match snd (fst a) with Some g => [g; snd a] | None => [snd a] end.
+
+Definition rhs_exprs (r : rhs) : list ex :=
+  match r with
+  | RExp e => [e]
+  | RTable _ rows => List.concat rows
+  | RMatch src arms => src :: flat_map marm_exprs arms
+  | RCompr _ e qs => e :: map qual_expr qs
+  end.
+
 Definition stmt_exprs (s : stmt) : list ex :=
   match s with
-  | SDefine _ _ _ e | SExpr e => [e]
-  | SAssign _ subs e | SOpAssign _ subs _ e => subs ++ [e]
+  | SDefine _ _ _ e | SExpr e => rhs_exprs e
+  | SAssign _ subs e | SOpAssign _ subs _ e => subs ++ rhs_exprs e
+  | SComment _ | SEnum _ _ => []
+  | SFun _ _ _ arms => map (fun a => snd a) arms
   end.
 
 Definition exists_prog (P : ex -> bool) (p : prog) : bool :=
@@ -995,14 +1059,53 @@ Definition lex_node (e : ex) : bool :=
   | ECall f args => ident_ok f && forallb (fun a => match fst a with Some n => ident_ok n | None => true end) args
   | ESlice x _ => ident_ok x
   | EDot s => ident_ok s
+  | ETupS n _ => ident_ok n
   | _ => true
+  end.
+
+Definition lex_item (i : pitem) : bool :=
+  match i with
+  | IWild => true
+  | ILit (LNum s) k => num_ok s && kind_ok k
+  | ILit (LStr s) k => str_ok s && kind_ok k
+  | ILit (LBool _) k => kind_ok k
+  | ILit (LAtom s) k => ident_ok s && kind_ok k
+  | IVar x k => ident_ok x && kind_ok k
+  end.
+
+Fixpoint lex_pat (p : pat) : bool :=
+  match p with
+  | PItem i => lex_item i
+  | PTup ps => forallb lex_pat ps
+  | PTupS n ps => ident_ok n && forallb lex_pat ps
+  | PArr pre tl =>
+      forallb lex_item pre &&
+      match tl with ANone => true | ASpread suf => forallb lex_item suf | ARest b => lex_item b end
+  end.
+
+(* comment text: letters, digits, blanks and a little punctuation (no Mechdown inline markup) *)
+Definition com_ok (s : string) : bool :=
+  all_chars (fun c => is_alpha c || is_digit c || existsb (Ascii.eqb c) [" "; ","; "."; ":"; ";"; "="; "("; ")"; "'"]%char) s.
+
+Definition lex_rhs (r : rhs) : bool :=
+  match r with
+  | RExp _ => true
+  | RTable fs _ => forallb (fun fk => ident_ok (fst fk) && kind_ok (Some (snd fk))) fs
+  | RMatch _ arms => forallb (fun a => lex_pat (snd (fst (fst a)))) arms
+  | RCompr _ _ qs =>
+      forallb (fun q => match q with QGen p _ => lex_pat p | QLet x k _ => ident_ok x && kind_ok k | QFilt _ => true end) qs
   end.
 
 Definition lex_stmt (s : stmt) : bool :=
   match s with
-  | SDefine _ x k _ => ident_ok x && kind_ok k
-  | SAssign x _ _ | SOpAssign x _ _ _ => ident_ok x
-  | SExpr _ => true
+  | SDefine _ x k r => ident_ok x && kind_ok k && lex_rhs r
+  | SAssign x _ r | SOpAssign x _ _ r => ident_ok x && lex_rhs r
+  | SExpr r => lex_rhs r
+  | SComment s => com_ok s
+  | SEnum n vs => ident_ok n && forallb (fun v => ident_ok (fst v) && kind_ok (snd v)) vs
+  | SFun f args out arms =>
+      ident_ok f && forallb (fun a => ident_ok (fst a) && kind_ok (Some (snd a))) args && kind_ok (Some out) &&
+      forallb (fun a => lex_pat (snd (fst a))) arms
   end.
 
 Definition lex_ok (p : prog) : bool :=
@@ -1096,6 +1199,17 @@ Fixpoint dec_ex (x : sx) : option ex :=
           | _ => None
           end in
         option_map ERec (db args)
+      else if String.eqb t "map" then
+        let dm := fix dm (q : list sx) : option (list (ex * ex)) :=
+          match q with
+          | [] => Some []
+          | Lx [Ax _; k; v] :: r =>
+              match dec_ex k, dec_ex v, dm r with Some a, Some b, Some c => Some ((a, b) :: c) | _, _, _ => None end
+          | _ => None
+          end in
+        option_map EMap (dm args)
+      else if String.eqb t "tups" then
+        match args with [Qx n; a] => option_map (ETupS n) (dec_ex a) | _ => None end
       else if String.eqb t "call" then
         match args with
         | Qx f :: q =>
@@ -1132,15 +1246,146 @@ Fixpoint dec_ex (x : sx) : option ex :=
   | _ => None
   end.
 
+Definition dec_lit (ty : string) (v : sx) : option lit :=
+  if String.eqb ty "num" then option_map LNum (sx_q v)
+  else if String.eqb ty "str" then option_map LStr (sx_q v)
+  else if String.eqb ty "bool" then option_map LBool (sx_bool v)
+  else if String.eqb ty "atom" then option_map LAtom (sx_q v)
+  else None.
+
+Definition dec_item (x : sx) : option pitem :=
+  match x with
+  | Lx [Ax t] => if String.eqb t "pw" then Some IWild else None
+  | Lx [Ax t; Ax ty; v; k] =>
+      if String.eqb t "pl" then
+        match dec_lit ty v, dec_kind k with Some l, Some k => Some (ILit l k) | _, _ => None end
+      else None
+  | Lx [Ax t; Qx n; k] => if String.eqb t "pv" then option_map (IVar n) (dec_kind k) else None
+  | _ => None
+  end.
+
+Fixpoint dec_pat (x : sx) : option pat :=
+  let dl := fix dl (l : list sx) : option (list pat) :=
+    match l with
+    | [] => Some []
+    | y :: r => match dec_pat y, dl r with Some a, Some b => Some (a :: b) | _, _ => None end
+    end in
+  match x with
+  | Lx (Ax t :: Qx n :: args) =>
+      if String.eqb t "ps" then option_map (PTupS n) (dl args)
+      else option_map PItem (dec_item x)
+  | Lx (Ax t :: args) =>
+      if String.eqb t "pt" then option_map PTup (dl args)
+      else if String.eqb t "pa" then
+        match args with
+        | [Lx pre; Lx (Ax tg :: suf)] =>
+            match map_opt dec_item pre, map_opt dec_item suf with
+            | Some pre, Some suf =>
+                if String.eqb tg "none" then match suf with [] => Some (PArr pre ANone) | _ => None end
+                else if String.eqb tg "spread" then Some (PArr pre (ASpread suf))
+                else if String.eqb tg "rest" then match suf with [b] => Some (PArr pre (ARest b)) | _ => None end
+                else None
+            | _, _ => None
+            end
+        | _ => None
+        end
+      else option_map PItem (dec_item x)
+  | _ => None
+  end.
+
+(* the decoder computes the branch flags: the last arm gets └ *)
+Fixpoint set_last {A} (l : list A) : list (bool * A) :=
+  match l with
+  | [] => []
+  | [a] => [(true, a)]
+  | a :: r => (false, a) :: set_last r
+  end.
+
+Definition dec_qual (x : sx) : option qual :=
+  match x with
+  | Lx [Ax t; p; e] =>
+      if String.eqb t "gen" then match dec_pat p, dec_ex e with Some p, Some e => Some (QGen p e) | _, _ => None end else None
+  | Lx [Ax t; Qx n; k; e] =>
+      if String.eqb t "let" then match dec_kind k, dec_ex e with Some k, Some e => Some (QLet n k e) | _, _ => None end else None
+  | Lx [Ax t; e] => if String.eqb t "filt" then option_map QFilt (dec_ex e) else None
+  | _ => None
+  end.
+
+Definition dec_field (x : sx) : option (string * kind) :=
+  match x with
+  | Lx [Ax _; Qx n; k] => match dec_kind k with Some (Some k) => Some (n, k) | _ => None end
+  | _ => None
+  end.
+
+Definition dec_marm (x : sx) : option (pat * option ex * ex) :=
+  match x with
+  | Lx [Ax _; p; e] => match dec_pat p, dec_ex e with Some p, Some e => Some (p, None, e) | _, _ => None end
+  | Lx [Ax _; p; g; e] =>
+      match dec_pat p, dec_ex g, dec_ex e with Some p, Some g, Some e => Some (p, Some g, e) | _, _, _ => None end
+  | _ => None
+  end.
+
+Definition dec_rhs (x : sx) : option rhs :=
+  match x with
+  | Lx (Ax t :: args) =>
+      if String.eqb t "table" then
+        match args with
+        | Lx (Ax _ :: fs) :: rows =>
+            match map_opt dec_field fs,
+                  map_opt (fun r => match r with Lx (Ax _ :: cs) => map_opt dec_ex cs | _ => None end) rows with
+            | Some fs, Some rows => Some (RTable fs rows)
+            | _, _ => None
+            end
+        | _ => None
+        end
+      else if String.eqb t "match" then
+        match args with
+        | src :: arms =>
+            match dec_ex src, map_opt dec_marm arms with
+            | Some src, Some arms => Some (RMatch src (map (fun a => (fst a, fst (fst (snd a)), snd (fst (snd a)), snd (snd a))) (set_last arms)))
+            | _, _ => None
+            end
+        | _ => None
+        end
+      else if String.eqb t "compr" then
+        match args with
+        | m :: e :: qs =>
+            match sx_bool m, dec_ex e, map_opt dec_qual qs with
+            | Some m, Some e, Some qs => Some (RCompr m e qs)
+            | _, _, _ => None
+            end
+        | _ => None
+        end
+      else option_map RExp (dec_ex x)
+  | _ => None
+  end.
+
+Definition dec_variant (x : sx) : option (string * option kind) :=
+  match x with Lx [Ax _; Qx n; k] => option_map (fun k => (n, k)) (dec_kind k) | _ => None end.
+
+Definition dec_farm (x : sx) : option (pat * ex) :=
+  match x with
+  | Lx [Ax _; p; e] => match dec_pat p, dec_ex e with Some p, Some e => Some (p, e) | _, _ => None end
+  | _ => None
+  end.
+
 Definition dec_stmt (x : sx) : option stmt :=
   match x with
+  | Lx (Ax t :: Qx n :: Lx (Ax _ :: a) :: k :: arms) =>
+      if String.eqb t "fun" then
+        match map_opt dec_field a, dec_kind k, map_opt dec_farm arms with
+        | Some a, Some (Some k), Some arms =>
+            Some (SFun n a k (map (fun a => (fst a, fst (snd a), snd (snd a))) (set_last arms)))
+        | _, _, _ => None
+        end
+      else None
   | Lx [Ax t; m; Qx n; k; e] =>
       if String.eqb t "def" then
-        match sx_bool m, dec_kind k, dec_ex e with Some m, Some k, Some e => Some (SDefine m n k e) | _, _, _ => None end
+        match sx_bool m, dec_kind k, dec_rhs e with Some m, Some k, Some e => Some (SDefine m n k e) | _, _, _ => None end
       else if String.eqb t "opasg" then
         match m, k with
         | Lx subs, Ax a =>
-            match map_opt dec_ex subs, dec_aop a, dec_ex e with
+            match map_opt dec_ex subs, dec_aop a, dec_rhs e with
             | Some s, Some a, Some e => Some (SOpAssign n s a e)
             | _, _, _ => None
             end
@@ -1149,9 +1394,13 @@ Definition dec_stmt (x : sx) : option stmt :=
       else None
   | Lx [Ax t; Qx n; Lx subs; e] =>
       if String.eqb t "asg" then
-        match map_opt dec_ex subs, dec_ex e with Some s, Some e => Some (SAssign n s e) | _, _ => None end
+        match map_opt dec_ex subs, dec_rhs e with Some s, Some e => Some (SAssign n s e) | _, _ => None end
       else None
-  | Lx [Ax t; e] => if String.eqb t "expr" then option_map SExpr (dec_ex e) else None
+  | Lx (Ax t :: Qx n :: vs) =>
+      if String.eqb t "enum" then option_map (SEnum n) (map_opt dec_variant vs)
+      else if String.eqb t "com" then match vs with [] => Some (SComment n) | _ => None end
+      else None
+  | Lx [Ax t; e] => if String.eqb t "expr" then option_map SExpr (dec_rhs e) else None
   | _ => None
   end.
 
